@@ -101,6 +101,20 @@ type shortReader struct {
 	armed   bool
 	forced  map[uint64]byte // stream offset → XOR mask (composes with the byte-flip perturbation of re-runs)
 	nForce  int
+
+	// lane of the request being served: 0 = the main stream, 1 = fresh bytes
+	// handed out during re-runs to requests the original call did not make.
+	lane int
+	// re-run mode: the library may keep state (a pool of random bytes), so a
+	// re-run must never let it see main-stream bytes a second time except as the
+	// very request that got them the first time. The i-th small request of the
+	// re-run gets the bytes of the i-th small request of the original call if the
+	// sizes agree; everything else (bulk fetches, extra or different requests)
+	// gets fresh bytes from lane 1.
+	replaying bool
+	plan      []req // the original call's requests, absolute offsets
+	cur       int
+	desync    bool
 }
 
 // rejectPattern: leading bytes that, after the stdlib's key[1] ^= 0x42, read
@@ -122,12 +136,30 @@ func rejectPattern(n int) []byte {
 }
 
 func (s *shortReader) Read(p []byte) (int, error) {
-	off := s.g.Offset(0)
 	cont := s.pending > 0 && len(p) == s.pending
 	// simrng hands a queued key-ID script to ANY 4-byte read: only a genuine
 	// 4-byte request may see it, never a 4-byte piece of a larger request.
 	scripted := len(p) == 4 && s.g.ScriptLen() > 0 && !cont
-	if s.armed && !scripted && !cont {
+	if !cont {
+		s.lane = 0
+		if s.replaying && !scripted && len(p) > 1 {
+			s.lane = 1
+			if len(p) < bulkMin && !s.desync {
+				for s.cur < len(s.plan) && s.plan[s.cur].n >= bulkMin {
+					s.cur++
+				}
+				if s.cur < len(s.plan) && s.plan[s.cur].n == len(p) {
+					s.lane = 0
+					s.g.SetOffset(0, s.plan[s.cur].off)
+					s.cur++
+				} else {
+					s.desync = true
+				}
+			}
+		}
+	}
+	off := s.g.Offset(s.lane)
+	if s.armed && !scripted && !cont && !s.replaying {
 		if pat := rejectPattern(len(p)); pat != nil {
 			s.armed = false
 			s.nForce++
@@ -136,7 +168,7 @@ func (s *shortReader) Read(p []byte) (int, error) {
 			}
 		}
 	}
-	if !cont && !scripted && len(p) > 1 {
+	if !cont && !scripted && len(p) > 1 && !s.replaying {
 		s.reqs = append(s.reqs, req{off, len(p)})
 	}
 	n, err := s.read(p, scripted)
@@ -145,12 +177,18 @@ func (s *shortReader) Read(p []byte) (int, error) {
 	} else {
 		s.pending = 0
 	}
-	if len(s.forced) > 0 && n > 1 && !scripted {
+	if len(p) == 1 || scripted {
+		return n, err
+	}
+	if s.lane == 0 && len(s.forced) > 0 {
 		for i := 0; i < n; i++ {
 			if m, ok := s.forced[off+uint64(i)]; ok {
 				p[i] ^= m
 			}
 		}
+	}
+	if s.lane == 1 || !s.replaying {
+		ledger.add(p[:n]) // issued for the first time
 	}
 	return n, err
 }
@@ -348,7 +386,16 @@ func (w *world) catch(where string) {
 // win is what one call drew from the main stream.
 type win struct {
 	start, end uint64
-	data       []byte // the issued bytes, unperturbed
+	// data: the issued bytes, unperturbed, WITHOUT those of bulk requests
+	// (≥ bulkMin bytes in one request: a library filling a pool). All consumption
+	// accounting and all byte positions of the oracles refer to data; raw is
+	// everything issued, eff[i] the position in raw of data[i].
+	data []byte
+	raw  []byte
+	eff  []int
+	bulk [][2]int // ranges of raw issued to bulk requests
+	plan []req    // every request of the call, absolute offsets (for re-runs)
+	led0 int      // ledger index of raw[0]
 	scripted   int    // scripted 4-byte reads served during the call
 	short      bool   // a short read was served during the call
 	forced     bool   // the forced-rejection pattern was planted into a read of this call
@@ -362,6 +409,7 @@ func (w *world) bracket(where string, f func()) win {
 	g.Log = g.Log[:0]
 	start, sl, ob, sf, nf := g.Offset(0), g.ScriptServed, g.OneByteReads, w.sr.fired, w.sr.nForce
 	w.sr.reqs = w.sr.reqs[:0]
+	led0 := ledger.end()
 	func() {
 		defer w.catch(where)
 		f()
@@ -384,16 +432,36 @@ func (w *world) bracket(where string, f func()) win {
 		w.r.Violation("C20/window-not-advancing", fmt.Sprintf("%s starts at stream offset %d, before the end %d of the previous call", where, start, w.lastEnd))
 	}
 	w.lastEnd = end
-	wn := win{start: start, end: end, data: g.Bytes(0, start, int(end-start)), scripted: g.ScriptServed - sl, short: w.sr.fired > sf}
-	for i := range wn.data {
+	wn := win{start: start, end: end, raw: g.Bytes(0, start, int(end-start)), scripted: g.ScriptServed - sl, short: w.sr.fired > sf, led0: led0}
+	for i := range wn.raw {
 		if m, ok := w.sr.forced[start+uint64(i)]; ok {
-			wn.data[i] ^= m
+			wn.raw[i] ^= m
 		}
 	}
 	wn.forced = w.sr.nForce > nf
-	for _, q := range w.sr.reqs {
-		if q.off >= start && q.off < end {
-			wn.reqs = append(wn.reqs, req{q.off - start, q.n})
+	wn.plan = append([]req(nil), w.sr.reqs...)
+	isBulk := make([]bool, len(wn.raw))
+	for _, q := range wn.plan {
+		if q.n >= bulkMin && q.off >= start && q.off+uint64(q.n) <= end {
+			a := int(q.off - start)
+			wn.bulk = append(wn.bulk, [2]int{a, a + q.n})
+			for i := a; i < a+q.n; i++ {
+				isBulk[i] = true
+			}
+		}
+	}
+	rawToEff := make([]int, len(wn.raw)+1)
+	for i, b := range wn.raw {
+		rawToEff[i] = len(wn.data)
+		if !isBulk[i] {
+			wn.data = append(wn.data, b)
+			wn.eff = append(wn.eff, i)
+		}
+	}
+	rawToEff[len(wn.raw)] = len(wn.data)
+	for _, q := range wn.plan {
+		if q.n < bulkMin && q.off >= start && q.off < end {
+			wn.reqs = append(wn.reqs, req{uint64(rawToEff[int(q.off-start)]), q.n})
 		}
 	}
 	w.sr.armed = false
@@ -423,8 +491,8 @@ func (w *world) rerun(wn win, j int, where string, f func()) { w.rerunXor(wn, j,
 // rerunXor executes f on the identical stream with byte j of the window XORed with x.
 func (w *world) rerunXor(wn win, j int, x byte, where string, f func()) {
 	g := w.g
-	g.SetOffset(0, wn.start)
-	g.Perturb(0, wn.start+uint64(j), x)
+	w.beginReplay(wn)
+	g.Perturb(0, wn.start+uint64(wn.eff[j]), x)
 	g.LogOn = false
 	func() {
 		defer w.catch(where + " (re-run)")
@@ -432,22 +500,31 @@ func (w *world) rerunXor(wn win, j int, x byte, where string, f func()) {
 	}()
 	g.LogOn = true
 	g.Unperturb()
-	g.SetOffset(0, wn.end)
+	w.endReplay(wn)
+}
+
+func (w *world) beginReplay(wn win) {
+	w.g.SetOffset(0, wn.start)
+	w.sr.replaying, w.sr.plan, w.sr.cur, w.sr.desync, w.sr.pending = true, wn.plan, 0, false, 0
+}
+
+func (w *world) endReplay(wn win) {
+	w.sr.replaying, w.sr.lane, w.sr.pending = false, 0, 0
+	w.g.SetOffset(0, wn.end)
 	w.reruns++
 }
 
 // replay executes f again on the identical, unperturbed seam stream.
 func (w *world) replay(wn win, where string, f func()) {
 	g := w.g
-	g.SetOffset(0, wn.start)
+	w.beginReplay(wn)
 	g.LogOn = false
 	func() {
 		defer w.catch(where + " (replay)")
 		f()
 	}()
 	g.LogOn = true
-	g.SetOffset(0, wn.end)
-	w.reruns++
+	w.endReplay(wn)
 }
 
 // reseed restarts the library-internal randomness source (the one crypto/mlkem,
@@ -1798,6 +1875,7 @@ func run(t *rapid.T) {
 	gseed := rapid.Uint64().Draw(t, "globalSeed")
 	cryptotest.SetGlobalRandom(outerT, gseed)
 	sr := &shortReader{g: g, forced: map[uint64]byte{}, max: rapid.SampledFrom([]int{0, 0, 0, 7, 5, 3, 2, 4, 6, 1}).Draw(t, "shortMax")}
+	g.SetLaneFunc(func() int { return sr.lane })
 	old := rand.Reader
 	rand.Reader = sr
 	defer func() { rand.Reader = old }()
